@@ -17,19 +17,19 @@ import (
 func init() {
 	register(&core.Rule{ID: "C02.7", Prop: "C02", MinSites: 2,
 		Desc: "(*eventloop).write leaves with data still buffered only on EAGAIN, in level-triggered mode (write interest stays armed), or after triggering write0 for the same conn on the same loop with HighPriority",
-		Run: runC02_7})
+		Run:  runC02_7})
 	register(&core.Rule{ID: "C01.10", Prop: "C01", MinSites: 1,
 		Desc: "after the leftover was appended to the inbound ring, c.buffer is emptied before read returns or reads again (otherwise a later wake-up would expose the same bytes twice)",
-		Run: runC01_10})
+		Run:  runC01_10})
 	register(&core.Rule{ID: "C03.12", Prop: "C03", MinSites: 2,
 		Desc: "Polling: the wake-up descriptor's event sets the chores flag, the task drain runs under that flag and the flag is cleared before draining",
-		Run: runC03_12})
+		Run:  runC03_12})
 	register(&core.Rule{ID: "C06.8", Prop: "C06", MinSites: 2,
 		Desc: "the ticker goroutine returns when the engine context is done; engine.shutdown cancels that context on every path",
-		Run: runC06_8})
+		Run:  runC06_8})
 	register(&core.Rule{ID: "C07.8", Prop: "C07", MinSites: 4,
 		Desc: "closeEventLoops closes the listeners and the poller of every event loop and, if present, the main reactor's listeners and poller",
-		Run: runC07_8})
+		Run:  runC07_8})
 }
 
 func runC02_7(c *core.Ctx) {
